@@ -512,5 +512,92 @@ class Decorator(Unit):
         return replay_register()
 
 
+def all_packet_classes():
+    """Every class any get_packets() of the library returns for any supported version, plus their bases up to Packet."""
+    import minecraft
+    from minecraft.networking.connection import ConnectionContext
+    from minecraft.networking.packets import clientbound, serverbound, Packet
+    out = {Packet}
+    for p in minecraft.SUPPORTED_PROTOCOL_VERSIONS:
+        ctx = ConnectionContext(protocol_version=p)
+        for side in (clientbound, serverbound):
+            for st in ('handshake', 'status', 'login', 'play'):
+                out |= set(getattr(side, st).get_packets(ctx))
+    for c in list(out):
+        out |= {b for b in c.__mro__ if issubclass(b, Packet)}
+    return sorted(out, key=lambda c: (c.__module__, c.__qualname__))
+
+
+def falsy_instance(cls):
+    """An instance of cls for which bool() is False (attributes the truth test asks for are supplied empty), or None."""
+    try:
+        obj = cls()
+    except Exception:       # noqa
+        return None
+    for _ in range(6):
+        try:
+            return obj if not bool(obj) else None
+        except AttributeError as e:
+            name = getattr(e, 'name', None)
+            if not name:
+                return None
+            try:
+                setattr(obj, name, [])
+            except Exception:    # noqa
+                return None
+        except Exception:        # noqa
+            return None
+    return None
+
+
+class PacketTruthiness(Unit):
+    """The networking thread and the reactors tell "a packet was read" from "nothing to read" by the truth value of what
+    read_packet returned (`if not packet: break`): the dispatch contracts hold for every packet only if every packet object
+    is true.  Class invariant over all packet classes of all supported versions: truth is object identity (no __bool__, no
+    __len__ anywhere in the MRO below object)."""
+    prop = 'C13'
+    name = 'C13.packets-are-true'
+    int_mode = 'int'
+    functions = ('minecraft.networking.packets.* [class invariant: no __bool__ / __len__]',)
+
+    def run(self, I):
+        E = I.E
+        cs = all_packet_classes()
+        E.check('truth.classes-found', len(cs) > 50)
+        own = [(c, [n for n in ('__bool__', '__len__') if any(n in k.__dict__ for k in c.__mro__ if k is not object)]) for c in cs]
+        defining = [(c, ns) for c, ns in own if ns]
+        for c, ns in defining:
+            w = falsy_instance(c)
+            if w is None:
+                raise Unsupported('%s defines %s: whether every instance is true is not decided by this contract' % (c.__name__, '/'.join(ns)))
+            E.check('truth.every-packet-is-true[%s]' % c.__name__, False,
+                    note='%s defines %s and has false instances: a false packet ends the read batch and is never dispatched'
+                         % (c.__name__, '/'.join(ns)))
+        E.check('truth.identity-based', not defining, note='%d packet classes, none overrides __bool__ / __len__' % len(cs))
+        return None
+
+    def replay(self, model, label):
+        return replay_truthiness()
+
+    def bounded(self, rng, tier):
+        rp = replay_truthiness()
+        return dict(name='C13.packets-are-true.instances', evaluations=rp['n'], bound='a default instance of every packet class of every '
+                    'supported version', failures=[dict(call=rp['call'], observed=rp['observed'], witness='false-packet')]
+                    if rp['confirmed'] else [])
+
+
+def replay_truthiness():
+    n = 0
+    for c in all_packet_classes():
+        n += 1
+        w = falsy_instance(c)
+        if w is not None:
+            extra = {k: v for k, v in vars(w).items() if k != 'context'} if hasattr(w, '__dict__') else {}
+            return dict(confirmed=True, n=n, call='bool(%s()) with %s' % (c.__name__, extra or 'no fields set'),
+                        observed='False: NetworkingThread._run treats this packet as "nothing read", stops the batch and never '
+                                 'passes it to the listeners or the reaction')
+    return dict(confirmed=False, n=n, call='truth value of packet instances', observed='all true')
+
+
 def units(tier):
-    return [Register(), Filter(), Dispatch('_react'), Dispatch('_write_packet'), Decorator()]
+    return [Register(), Filter(), Dispatch('_react'), Dispatch('_write_packet'), Decorator(), PacketTruthiness()]
